@@ -337,6 +337,42 @@ def propagation_to_run(chk, found):
                 if o.kind != "raise" or o.value != e:
                     chk.bad(rule, name, "a failure (%s) delivered to manage_payloads does not leave it unchanged (path ends: %s): runner.run() does not fail" % (label, show(o.value) if o.kind == "raise" else o.kind), node=mp.node, stmt="manage-swallows %s" % label, input=label)
                     ok = False
+        if not ff:
+            # nursery-monitored runner: the failure surfaces at the nursery block of the function run by trio.run,
+            # then at trio.run itself; neither function may swallow it
+            hops = []
+            for fis in cls.methods.values():
+                for f in fis:
+                    for node in ast.walk(f.node):
+                        if isinstance(node, ast.Call) and prog.resolve(f.module, node.func) == "ext:trio.run":
+                            hops.append((f, lambda ct: ct[0] == "call" and ct[1] == ("glob", "ext:trio.run"), "trio.run"))
+                        if isinstance(node, ast.Call) and isinstance(node.func, ast.Attribute) and node.func.attr == "start_soon":
+                            hops.append((f, lambda ct: ct[0] == "call" and ct[1][0] == "attr" and ct[1][2] == "start_soon", "the nursery block"))
+            if len(hops) < 2:
+                chk.undecided(rule, cls.qual, "propagation path of the trio runner (nursery -> trio.run) not found", node=cls.node)
+                ok = False
+            for f, site, what in hops:
+                for label in ("AnyException", "OtherBase"):
+                    e = REPRESENTATIVES[label]
+
+                    def hook2(it, path, ct, node, e=e, site=site):
+                        return [("raise", e)] if site(ct) else None
+
+                    for o in Interp(prog, f, call_hook=hook2, unroll=1).run():
+                        chk.count()
+                        if not any(ev[0] == "raised-at-call" for ev in o.path.events):
+                            continue
+                        if o.kind != "raise" or o.value != e:
+                            chk.bad(
+                                rule,
+                                f.qual,
+                                "a payload failure (%s) surfacing at %s does not leave %s unchanged (path ends: %s): the failure never reaches runner.run() and the daemon keeps running"
+                                % (label, what, f.name, show(o.value) if o.kind == "raise" else o.kind),
+                                node=f.node,
+                                stmt="%s swallows at %s" % (f.name, what),
+                                input=label,
+                            )
+                            ok = False
         if n == 0:
             chk.bad(rule, name, "manage_payloads awaits neither the failure future nor the executor future of the trio run: a recorded failure is never seen", node=mp.node, stmt="no-await")
             ok = False
